@@ -77,9 +77,28 @@ def syntactic_streams(E):
         if isinstance(n, ast.Call) and isinstance(n.func, ast.Attribute) and n.func.attr == 'decode':
             kw = {k.arg: k.value for k in n.keywords}
             e = kw.get('errors')
-            ok = isinstance(e, ast.Constant) and e.value in ('backslashreplace', 'replace', 'ignore', 'surrogateescape')
-    E.syntactic_obligation("the capture stream's getvalue() decodes with an error handler that never raises "
-                           "(undecodable bytes written by a test must not abort the run)", ok, props=('C13', 'C04'))
+            # 'surrogateescape' / 'surrogatepass' never raise while decoding either, but they smuggle lone surrogates into the
+            # text, and the formatter then writes that text to the real (strict) stdout: UnicodeEncodeError aborts the run
+            ok = isinstance(e, ast.Constant) and e.value in ('backslashreplace', 'replace', 'ignore')
+    E.syntactic_obligation("the capture stream's getvalue() decodes with an error handler that never raises and yields text every "
+                           "text stream can encode again (undecodable bytes written by a test must not abort the run)", ok,
+                           props=('C13', 'C04'))
+    # the captured text is complete: every write reaches the underlying BytesIO at once (write_through) or getvalue() flushes
+    cls = [n for n in ast.walk(fdef) if isinstance(n, ast.ClassDef)]
+    names = {c.name for c in cls}
+    ctor = [n for n in ast.walk(fdef) if isinstance(n, ast.Call) and isinstance(n.func, ast.Name) and n.func.id in names]
+    wt = bool(ctor) and all(any(k.arg == 'write_through' and isinstance(k.value, ast.Constant) and k.value.value is True
+                                for k in c.keywords) for c in ctor)
+    flushes = False
+    for c in cls:
+        for m in c.body:
+            if isinstance(m, ast.FunctionDef) and m.name == 'getvalue':
+                calls = [ast.unparse(x.func) for x in ast.walk(m) if isinstance(x, ast.Call)]
+                flushes = 'self.flush' in calls and calls.index('self.flush') < min(
+                    [i for i, t in enumerate(calls) if t.endswith('getvalue')] or [10 ** 6])
+    E.syntactic_obligation("the capture stream hands out everything written so far: it is created write-through, or its getvalue() "
+                           "flushes first (text without a trailing newline must not stay in the wrapper)", wt or flushes,
+                           props=('C13',))
     tree = E.module('threadsupport')[0]
     cls = [n for n in ast.walk(tree) if isinstance(n, ast.ClassDef) and n.name == 'ThreadProxy']
     eq_ok = hash_ok = False
@@ -470,8 +489,9 @@ CASE_RUN = {
     'raises': {
         # C04: nothing but a KeyboardInterrupt (or an exception of a per-test layer hook, by design) leaves test(result);
         # C13/C18: even then the std streams are the originals again
-        'OtherBase': [R(ORIG)] + [R(c) for c in CI],
-        'KeyboardInterrupt': [R(ORIG)] + [R(c) for c in CI],
+        # C05: ... and the per-test hooks are balanced (stopTest ran in the outer finally), unless a hook itself raised
+        'OtherBase': [R(ORIG), "G.hookexc or not G.tsu"] + [R(c) for c in CI],
+        'KeyboardInterrupt': [R(ORIG), "G.hookexc or not G.tsu"] + [R(c) for c in CI],
         'Exception': [R(ORIG), "G.hookexc"] + [R(c) for c in CI],        # only after a per-test layer hook raised
     },
     'loops': {'#loop1': MID + [R(c) for c in CI], '#loop2': MID + [R(c) for c in CI]},
